@@ -3,6 +3,10 @@
 proof:   Properties/C19.v over Model/Redfish.v (one shell-loop pass = `pass`, a command = `run_line`) and
          Spec/RedfishSpec.v (the documented rules, top-down per target); Gen/GenRfp.v (gen/gen_rfp.py) carries the
          command / status words, every stdout format string and the F17/F20 repair flags of the CURRENT source.
+         Proved (Proofs/Redfish*.v): single-target lines at any depth = RedfishSpec.expected for every release
+         schedule (+ the property-text corollaries), ancestor+descendant `on` refusal for any number of targets,
+         the error reports, F17 / F20 answers; OPEN: the refinement for several related targets on one line --
+         that case is decided by nothing but this correspondence + monitor (see props/C19.json).
 tie:     R-RFP   the real `redfishpower --test-mode` of the scratch copy (harness/rfp_drv.py, ASan+UBSan build,
          one process per session, one line at a time) vs the extracted model (driver/rfp_drv.ml), per command:
          multiset of stdout lines, prompt returned, process alive; the model is run under two release schedules
@@ -247,6 +251,16 @@ def gen_session(rng, sid, tier):
                 arg = render_targets(rng, tg)
             exp = expect_rules(cmd, tg, fo, set(fail), st)
             add(cmd + (" " + arg if arg is not None else ""), cmd=cmd, targets=tg, expect=dict(exp), noarg=arg is None)
+            if cmd == "off" and rng.random() < 0.5:
+                # cascade probe: the descendants of a plug that was just switched off are hidden behind it while it is
+                # off; switch the parents on again and look at everybody (a missing cascade shows up as "on" below)
+                par = [p for p in dict.fromkeys(tg) if p in fo.par and any(fo.isdesc(q, p) for q in fo.plugs)]
+                lv = [p for p in par if not any(fo.isdesc(p, q) for q in par)]
+                if lv:
+                    exp = expect_rules("on", lv, fo, set(fail), st)
+                    add("on " + render_targets(rng, lv), cmd="on", targets=lv, expect=dict(exp), probe=True)
+                    exp = expect_rules("stat", list(fo.plugs), fo, set(fail), st)
+                    add("stat", cmd="stat", targets=list(fo.plugs), expect=dict(exp), noarg=True, probe=True)
         elif r < 0.88:
             cmd = rng.choice(["stat", "on", "off"])
             add("%s %s" % (cmd, rng.choice(MALFORMED_ARGS)), malformed=True, report=True)
@@ -373,6 +387,13 @@ def gen_small(pv, dep, failplug, sid):
                 # the status afterwards is part of the rules (off cascade)
                 exp = expect_rules("stat", names, fo, fail, st)
                 add("stat", cmd="stat", targets=list(names), expect=dict(exp), noarg=True, setup=True)
+                if cmd == "off" and allon and failplug is None:
+                    # cascade probe: descendants are hidden behind an off parent; switch the topmost targets on again
+                    lv = [p for p in tg if not any(fo.isdesc(p, q) for q in tg)]
+                    exp = expect_rules("on", lv, fo, fail, st)
+                    add("on " + ",".join(lv), cmd="on", targets=lv, expect=dict(exp), probe=True)
+                    exp = expect_rules("stat", names, fo, fail, st)
+                    add("stat", cmd="stat", targets=list(names), expect=dict(exp), noarg=True, probe=True)
     return s
 
 
